@@ -206,6 +206,9 @@ def rule(chk, rule_id, mods):
             if why:
                 bad = (flags, P, L, why)
         chk.obligation(rule_id, bad is None, key=(src, F.name), sample={"unit": src, "function": F.name, "cases": len(grid), "block": B})
+        if bad and "does not determine" in bad[3][1]:
+            chk.broke("%s: flags = %d, carried = %d, len = %d: %s" % (F.name, bad[0], bad[1], bad[2], bad[3][1]))
+            bad = None
         if bad:
             flags, P, L, (I, msg) = bad
             fl = {0: "UPDATE", 1: "FIRST", 2: "LAST", 3: "ENTIRE"}[flags]
